@@ -4,7 +4,8 @@ from aiokafka.errors import CorruptRecordException
 # VarInt implementation
 
 cdef inline int decode_varint64(
-        char* buf, Py_ssize_t* read_pos, int64_t* out_value) except -1:
+        char* buf, Py_ssize_t buf_len, Py_ssize_t* read_pos,
+        int64_t* out_value) except -1:
     cdef:
         int shift = 0
         char byte
@@ -12,6 +13,9 @@ cdef inline int decode_varint64(
         uint64_t value = 0
 
     while True:
+        if pos < 0 or pos >= buf_len:
+            raise CorruptRecordException(
+                "Varint runs past the end of the buffer")
         byte = buf[pos]
         pos += 1
         if byte & 0x80 != 0:
@@ -88,7 +92,7 @@ def decode_varint_cython(buffer, pos=0):
 
     PyObject_GetBuffer(buffer, &buf, PyBUF_SIMPLE)
     try:
-        decode_varint64(<char*>buf.buf, &read_pos, &out_value)
+        decode_varint64(<char*>buf.buf, buf.len, &read_pos, &out_value)
     except CorruptRecordException:
         raise ValueError("Out of double range")
     finally:
